@@ -466,11 +466,97 @@ fn first_use_race(trials: usize, seed: u64, st: &mut Stats) {
     hooks::set_perturbation(0);
 }
 
+/// One call that keeps the instance busy for seconds (a master-key update creating ~38 000
+/// hybridized rights on a private master key) while other threads use the same instance for small
+/// operations: they may wait, but every one of their calls must end with its sequential result.
+fn long_hold(st: &mut Stats) {
+    let Some(fx) = fixture() else {
+        st.inconclusive.push("fixture failed".into());
+        return;
+    };
+    let fx = Arc::new(fx);
+    let cc = Arc::new(cosmian_cover_crypt::api::Covercrypt::default());
+    let Out::Ok((mut big, _)) = call(|| cc.setup()) else { return };
+    for d in 0..4 {
+        let dn = format!("W{d}");
+        let _ = big.access_structure.add_anarchy(dn.clone());
+        for a in 0..13 {
+            let _ = big.access_structure.add_attribute(QualifiedAttribute::new(&dn, &format!("a{a}")), hint(true), None);
+        }
+    }
+    let replay = json!({"monitor": "c19", "phase": "long-hold"});
+    let done = Arc::new(AtomicBool::new(false));
+    let started = Arc::new(AtomicBool::new(false));
+    let mut hs = vec![];
+    for t in 0..3usize {
+        let (cc, fx, done, started, replay) = (cc.clone(), fx.clone(), done.clone(), started.clone(), replay.clone());
+        hs.push(std::thread::spawn(move || -> (u64, Vec<Finding>) {
+            let mut n = 0u64;
+            let mut findings = vec![];
+            while !started.load(Ordering::Acquire) {
+                std::thread::yield_now();
+            }
+            while !done.load(Ordering::Acquire) {
+                let ap = if (n as usize + t) % 2 == 0 { &fx.classic_ap } else { &fx.hybrid_ap };
+                let hybrid = (n as usize + t) % 2 == 1;
+                let problem = match call(|| cc.encaps(&fx.mpk, ap)) {
+                    Out::Ok((s, e)) => {
+                        let mut p = None;
+                        for (label, usk, ok_c, ok_h) in &fx.keys {
+                            let expect = if hybrid { *ok_h } else { *ok_c };
+                            match call(|| cc.decaps(usk, &e)) {
+                                Out::Ok(Some(k)) if expect && real::secret_bytes(&k) == real::secret_bytes(&s) => {}
+                                Out::Ok(None) if !expect => {}
+                                o => {
+                                    p = Some(format!("decaps with key '{label}' returned {} (authorized: {expect})", match &o { Out::Ok(Some(_)) => "a secret".to_string(), Out::Ok(None) => "None".to_string(), x => x.describe() }));
+                                    break;
+                                }
+                            }
+                        }
+                        p
+                    }
+                    o => Some(format!("encaps returned {}", o.describe())),
+                };
+                if let Some(p) = problem {
+                    findings.push(Finding {
+                        prop: "C19".into(),
+                        signature: "C19:call-differs-from-sequential-meaning-while-instance-is-busy".into(),
+                        detail: format!("while another thread was inside a long update_msk on the same instance: {p}"),
+                        replay: replay.clone(),
+                    });
+                    break;
+                }
+                n += 1;
+            }
+            (n, findings)
+        }));
+    }
+    let t0 = Instant::now();
+    started.store(true, Ordering::Release);
+    let out = call(|| cc.update_msk(&mut big));
+    let held = t0.elapsed();
+    done.store(true, Ordering::Release);
+    for h in hs {
+        if let Ok((n, f)) = h.join() {
+            st.add("ops_completed_around_a_long_call", n);
+            st.findings.extend(f);
+        }
+    }
+    if !out.is_ok() {
+        st.inconclusive.push(format!("long update_msk did not succeed: {}", out.describe()));
+        return;
+    }
+    st.add("long_call_ms", held.as_millis() as u64);
+    st.bump("long_hold_runs");
+    st.shapes.insert(fnv(b"long-hold"));
+}
+
 pub fn run(tier: &str, seed: u64, budget_s: u64, out: Option<&str>) -> Stats {
     let mut st = Stats::default();
     let mut rng = Rng::new(seed);
     let start = Instant::now();
     first_use_race(if tier == "thorough" { 2000 } else { 300 }, rng.next(), &mut st);
+    long_hold(&mut st);
     let budget = Duration::from_secs(if budget_s > 0 { budget_s } else if tier == "thorough" { 180 } else { 25 });
     let mut configs: BTreeSet<(usize, usize)> = BTreeSet::new();
     while start.elapsed() < budget {
